@@ -11,6 +11,9 @@ N6  `for x in (a, b): body` (2..4 simple elements, no break/continue/yield, x no
 N7  `x = self.a.b` / `push = stack.append` bound once at function top level, attribute not re-bound in the function
                                                     ->  the attribute expression is substituted for x
 N11 `for x in chain((a,), it): body` -> body[x:=a]; for x in it: body
+N15 a local only bound to k-tuple displays and only read as `*x` / `x[const]` -> k locals
+N14 `for x in iter(f, sentinel): body` -> `while True: x = f(); if x is sentinel: break; body`
+N13 `Class.method(obj, args)` of a package class -> `obj.method(args)`
 N12 module-level `S = struct.Struct(F)`: S.pack/unpack/size -> struct.pack/unpack/calcsize with F
 N9  calls of package functions -> the pinned tree's calling convention per parameter (sa/callconv.json)
 N5  `a, b = v1, v2` (same length, no starred, no name of the left read on the right)
@@ -102,14 +105,32 @@ class Normalizer:
         self.counter = 0
 
     def run(self):
+        self.unbound_method_calls()
         self.inline_struct_objects()
         self.canonical_calls()
         for mod, tree in self.modules.items():
             for fn in [n for n in ast.walk(tree) if isinstance(n, (ast.FunctionDef, ast.AsyncFunctionDef))]:
                 self.inline_generator_names(fn)
                 self.inline_attribute_aliases(fn)
+                self.scalarise_tuple_locals(fn)
             self.rewrite_blocks(tree)
         return self
+
+    # ------------------------------------------------------------------ N13
+    def unbound_method_calls(self):
+        """`Class.method(obj, args)` for a package class is `obj.method(args)`"""
+        classes = {}
+        for tree in self.modules.values():
+            for n in tree.body:
+                if isinstance(n, ast.ClassDef):
+                    classes[n.name] = {m.name for m in n.body if isinstance(m, ast.FunctionDef)}
+        for tree in self.modules.values():
+            for c in ast.walk(tree):
+                if isinstance(c, ast.Call) and isinstance(c.func, ast.Attribute) and isinstance(c.func.value, ast.Name) and c.func.value.id in classes \
+                        and c.func.attr in classes[c.func.value.id] and c.args and not isinstance(c.args[0], ast.Starred) and not c.func.attr.startswith('__'):
+                    obj = c.args.pop(0)
+                    c.func = ast.copy_location(ast.Attribute(value=obj, attr=c.func.attr, ctx=ast.Load()), c.func)
+                    self.changes += 1
 
     # ------------------------------------------------------------------ N12
     def inline_struct_objects(self):
@@ -213,6 +234,64 @@ class Normalizer:
             holder[1].iter = defs[0].value
             # drop the binding statement
             self._remove_stmt(fn, defs[0])
+            self.changes += 1
+
+    # ------------------------------------------------------------------ N15
+    def scalarise_tuple_locals(self, fn):
+        """a local that is only ever bound to tuple displays of one arity k and only read as `*x` in a call or as `x[const]`
+        is k locals"""
+        own = []
+
+        def collect(node):
+            for ch in ast.iter_child_nodes(node):
+                if isinstance(ch, (ast.FunctionDef, ast.AsyncFunctionDef, ast.Lambda, ast.ClassDef)):
+                    continue
+                own.append(ch)
+                collect(ch)
+        collect(fn)
+        params = {a.arg for a in fn.args.args + fn.args.kwonlyargs}
+        parent = {}
+        for n in [fn] + own:
+            for ch in ast.iter_child_nodes(n):
+                parent[id(ch)] = n
+        cands = {}
+        for a in own:
+            if isinstance(a, ast.Assign) and len(a.targets) == 1 and isinstance(a.targets[0], ast.Name) and isinstance(a.value, ast.Tuple) \
+                    and not any(isinstance(e, ast.Starred) for e in a.value.elts):
+                cands.setdefault(a.targets[0].id, []).append(a)
+        for name, defs in cands.items():
+            if name in params:
+                continue
+            ks = {len(a.value.elts) for a in defs}
+            if len(ks) != 1 or list(ks)[0] < 2:
+                continue
+            k = list(ks)[0]
+            stores = [n for n in own if isinstance(n, ast.Name) and n.id == name and isinstance(n.ctx, (ast.Store, ast.Del))]
+            loads = [n for n in own if isinstance(n, ast.Name) and n.id == name and isinstance(n.ctx, ast.Load)]
+            if len(stores) != len(defs) or not loads:
+                continue
+            okk = True
+            for l in loads:
+                par = parent.get(id(l))
+                if isinstance(par, ast.Starred) and isinstance(parent.get(id(par)), ast.Call) and par in parent[id(par)].args:
+                    continue
+                if isinstance(par, ast.Subscript) and par.value is l and isinstance(par.slice, ast.Constant) and isinstance(par.slice.value, int) \
+                        and 0 <= par.slice.value < k and isinstance(par.ctx, ast.Load):
+                    continue
+                okk = False
+            if not okk:
+                continue
+            parts = ['_t_%s_%d' % (name, i) for i in range(k)]
+            for a in defs:
+                a.targets[0] = ast.copy_location(ast.Tuple(elts=[ast.Name(id=p_, ctx=ast.Store()) for p_ in parts], ctx=ast.Store()), a.targets[0])
+            for l in loads:
+                par = parent.get(id(l))
+                if isinstance(par, ast.Starred):
+                    call = parent[id(par)]
+                    i = call.args.index(par)
+                    call.args[i:i + 1] = [ast.copy_location(ast.Name(id=p_, ctx=ast.Load()), l) for p_ in parts]
+                else:
+                    self._replace_node(fn, par, ast.Name(id=parts[par.slice.value], ctx=ast.Load()))
             self.changes += 1
 
     # ------------------------------------------------------------------ N7
@@ -347,6 +426,20 @@ class Normalizer:
                     body = [_loc(ast.If(test=c_, body=body, orelse=[]), s)]
                 return [_loc(ast.For(target=s.target, iter=gen.iter, body=body, orelse=[], type_comment=None), s)]
             return _comp_to_loop(g.generators, [_loc(bind, s)] + s.body, s)
+        # N14: `for x in iter(f, sentinel): body` -> while True: x = f(); if x is/== sentinel: break; body
+        if isinstance(s, ast.For) and isinstance(s.iter, ast.Call) and isinstance(s.iter.func, ast.Name) and s.iter.func.id == 'iter' and len(s.iter.args) == 2 \
+                and not s.iter.keywords and not s.orelse and isinstance(s.iter.args[1], ast.Constant):
+            f_, sent = s.iter.args
+            call = ast.Call(func=f_, args=[], keywords=[])
+            bind = ast.Assign(targets=[s.target], value=call, type_comment=None)
+            load_t = copy.deepcopy(s.target)
+            for x in ast.walk(load_t):
+                if isinstance(x, ast.Name):
+                    x.ctx = ast.Load()
+            cmp_ = ast.Compare(left=load_t, ops=[ast.Is() if sent.value is None else ast.Eq()], comparators=[sent])
+            brk = ast.If(test=cmp_, body=[ast.Break()], orelse=[])
+            loop = ast.While(test=ast.Constant(value=True), body=[_loc(bind, s), _loc(brk, s)] + s.body, orelse=[])
+            return [_loc(loop, s)]
         # N11: `for x in chain((a,), it): body` (body without break/continue) -> x = a; body; for x in it: body
         if isinstance(s, ast.For) and isinstance(s.iter, ast.Call) and not s.orelse and isinstance(s.target, ast.Name) \
                 and ast.unparse(s.iter.func) in ('chain', 'itertools.chain') and len(s.iter.args) == 2 and not s.iter.keywords \
